@@ -502,6 +502,36 @@ mod imp {
         json!({"vm": vm, "reference": reference, "agree": same})
     }
 
+    pub fn resolve_mode(input: &Value) -> Value {
+        use rscel::verif_hooks::{PreResolvedByteCode, PreResolvedCodePoint};
+        let mut code = PreResolvedByteCode::new();
+        let mut pts = Vec::new();
+        for p in input["points"].as_array().cloned().unwrap_or_default() {
+            let (k, x) = p.as_object().and_then(|o| o.iter().next().map(|(k, v)| (k.clone(), v.clone()))).unwrap();
+            pts.push(match k.as_str() {
+                "B" => PreResolvedCodePoint::Bytecode(ByteCode::Push(CelValue::from_int(x.as_i64().unwrap_or(0)))),
+                "J" => PreResolvedCodePoint::Jmp { label: x.as_u64().unwrap() as u32 },
+                "JC" => PreResolvedCodePoint::JmpCond {
+                    when: if x[0].as_bool().unwrap() { JmpWhen::True } else { JmpWhen::False },
+                    label: x[1].as_u64().unwrap() as u32,
+                },
+                _ => PreResolvedCodePoint::Label(x.as_u64().unwrap() as u32),
+            });
+        }
+        code.extend(pts);
+        let out = code.resolve();
+        let mut v = Vec::new();
+        for i in 0..out.len() {
+            v.push(match &out[i] {
+                ByteCode::Jmp(d) => format!("J({})", d),
+                ByteCode::JmpCond { when, dist } => format!("JC({},{})", matches!(when, JmpWhen::True), dist),
+                ByteCode::Push(CelValue::Int(n)) => format!("B({})", n),
+                other => format!("{:?}", other),
+            });
+        }
+        json!({"resolved": v})
+    }
+
     pub fn main() {
         let mode = std::env::args().nth(1).unwrap_or_default();
         let mut s = String::new();
@@ -514,6 +544,7 @@ mod imp {
                 match mode.as_str() {
                     "eval" => eval_mode(&v),
                     "vm" => guarded(|| vm_mode(&v)),
+                    "resolve" => guarded(|| resolve_mode(&v)),
                     _ => json!({"error": "mode"}),
                 }
             })
